@@ -176,7 +176,15 @@ def replay_oracles(w, same_too=True):
     # (b) the same dispatcher after reset()
     if same_too:
         held = hist_obs.history  # the user keeps the list they were given, not a copy
+        detached = len(accepted_before) % 3 == 0 and any(o is hist_obs for o in w.disp.subscribers)
+        if detached:
+            # the recording is frozen by detaching the observer before the dispatcher is reset (what the library's
+            # own frame creation does): an unsubscribed observer receives nothing, so its record stays as it is
+            w.disp.unsubscribe(hist_obs)
+            ctx.probe("history_frozen_by_unsubscribing")
         w.do_reset()
+        if detached:
+            held = hist_obs.history
         recorded = [(so.operation, so.machine_id) for so in held]
         if [(o.operation_id, mm) for o, mm in recorded] != [(o.operation_id, mm) for o, mm in [(w.ops_by_id[i], mm) for i, mm in accepted_before]]:
             ctx.fail("recorded_history_survives_reset", f"the history list obtained before reset() now holds {[(o.operation_id, mm) for o, mm in recorded]}, it recorded {accepted_before}")
